@@ -185,6 +185,14 @@ def matrix_history(cfg, sizes, kinds):
         expect[dname + "/c" + sf] = big
         names += [m, e, dname + "/c" + sf]
         dirs.append(dname)
+    # the write cache under this configuration, through one handle: write, rewind, ask the handle for its size, read the
+    # content back through the same handle, replace the first bytes, close; then it is read like every other file
+    W = 0o100 | 2
+    calls += [{"op": "open", "h": "wc", "name": "/wc", "flags": W, "perm": 0o644}, {"op": "write", "h": "wc", "blob": big}, {"op": "seek", "h": "wc", "whence": 0, "off": 0},
+              {"op": "hstat", "h": "wc", "htag": "size", "hblob": big}, {"op": "read", "h": "wc", "n": blobs[big]["len"] + 5, "htag": "content", "hblob": big},
+              {"op": "seek", "h": "wc", "whence": 0, "off": 0}, {"op": "hstat", "h": "wc", "htag": "size", "hblob": big}, {"op": "write", "h": "wc", "blob": big}, {"op": "close", "h": "wc"}]
+    expect["/wc"] = big
+    names.append("/wc")
     calls.append({"op": "reopen"})
     for n in names:
         calls += [{"op": "readfile", "name": n, "tag": n}, {"op": "stat", "name": n, "tag": n}, {"op": "restore", "name": n, "name2": "", "flag": True, "tag": n}]
@@ -242,6 +250,13 @@ def c03_oracle(d):
     for c, r in zip(h["calls"], res):
         if c["op"] in ("createfile", "archive", "update", "initialize", "reopen") and r["out"] != "ok":
             fails.append(dict(kind="write-failed", name=c.get("name"), detail=[c["op"], r["out"], r.get("err")]))
+        if c.get("htag") and blobs[c["hblob"]]["len"] > 0:
+            bl = blobs[c["hblob"]]
+            ret = r.get("ret") or {}
+            if c["htag"] == "size" and (r["out"] != "ok" or (ret.get("info") or {}).get("size") != bl["len"]):
+                fails.append(dict(kind="handle-size-differs-from-written", name="/wc", detail=[r["out"], (ret.get("info") or {}).get("size"), bl["len"]]))
+            if c["htag"] == "content" and (r["out"] not in ("ok", "eof") or ret.get("n") != bl["len"] or ret.get("blob") not in [i for i, x in enumerate(blobs) if x == bl]):
+                fails.append(dict(kind="handle-read-differs-from-written", name="/wc", detail=[r["out"], ret.get("n"), bl["len"], ret.get("blob"), c["hblob"]]))
         t = c.get("tag")
         if not t or t == "fetch":
             continue
